@@ -14,6 +14,8 @@ CONSTANTS
   NaNTest = "value"
   StrideOff = 1
   ReorderMode = "bylayout"
+  ZeroGuard = "guarded"
+  Gens = {1,2,3}
   Ordered = FALSE
   Export = FALSE
 INVARIANT EachSampleOnce
